@@ -164,6 +164,20 @@ def run(ctx, rep, tier="quick"):
     s6(ctx, rep)
     # S4 (cont.): the black list the model-based searchers exclude from is pending ∪ failed ∪ observed, and the failed
     # trials are never filtered out of it again (shared with C06-S5)
+    # the removal of a failed trial's pending entries deletes the right positions
+    from .common import ascending_index_deletion
+    n_ = 0
+    for f_ in sorted(ctx.P.functions.values(), key=lambda f: f.qualname):
+        if f_.module.relpath.endswith(("bayesopt/models/model_transformer.py", "bayesopt/datatypes/tuning_job_state.py",
+                                       "searchers/gp_multifidelity_searcher.py", "searchers/model_based_searcher.py")):
+            n_ += 1
+            for st_, txt in ascending_index_deletion(ctx, f_):
+                rep.bad("S4", "index_shift", f"{f_.short}: positions are deleted from the end", f_, st_,
+                        f"`{txt}` inside a loop over ascending positions of the same list: after the first deletion every later position "
+                        "is off by one - with two pending entries of the failed trial one of them survives and another trial's entry is "
+                        "deleted (or IndexError escapes from on_trial_error and the trial is never marked failed)")
+    rep.put(n_ >= 20, "S4", "index_shift", "pending / state mutators never delete ascending list positions in a forward loop", None, None,
+            f"{n_} functions swept")
     from . import c06
     sub = type(rep)(rep.prop)
     c06.s5(ctx, sub)
